@@ -315,9 +315,22 @@ def run_unit(unit_dir: str, repo_root: str = '/repo', tier: str = 'quick', keep:
         for o in obs:
             o['status'] = 'discharged'
         failures = []
+        # a resource-limit diagnostic inside a function that ALSO has a proper refutation is secondary:
+        # Verus keeps searching for further errors after the first one and may run out there.
+        def fn_of(d):
+            for sp in d['spans']:
+                i = sp['line_start'] - 1
+                if 0 <= i < len(em.lines):
+                    return em.lines[i].fn or template_fn_at(em.lines, i)
+            return None
+        refuted_fns = {fn_of(d) for d in errs if classify(d['message']) and not any(t in d['message'] for t in TOOL_MSGS)}
+        incomplete = []
         for d in errs:
             msg = d['message']
             if any(t in msg for t in TOOL_MSGS):
+                if fn_of(d) in refuted_fns:
+                    incomplete.append(f'{fn_of(d)}: {msg} (after a refutation was already found in this function)')
+                    continue
                 res['status'] = 'tool-error'
                 res['tool_error'] = f'solver resource limit: {msg}'
                 return res
@@ -342,6 +355,7 @@ def run_unit(unit_dir: str, repo_root: str = '/repo', tier: str = 'quick', keep:
                     ob_by_id[oid] = o
         # functions reported unsuccessful by the solver but without a mapped diagnostic -> tool error
         res['failures'] = failures
+        res['incomplete_after_refutation'] = incomplete
         if vr.get('errors', 0) > 0 and not failures:
             res['status'] = 'tool-error'
             res['tool_error'] = 'verus reported errors but no diagnostic could be mapped'
